@@ -32,6 +32,17 @@ def showInst (i : Inst) : String := ";".intercalate (i.map showCell)
 def showPanel (p : Panel) : String := if p.isEmpty then "_" else "|".intercalate (p.map showInst)
 def showTable (t : List (List Rat)) : String := if t.isEmpty then "_" else "|".intercalate (t.map showCell)
 
+/-- panels whose values may be NaN (`nan`) -/
+def parseOCell? (s : String) : Option (List (Option Rat)) :=
+  if s == "e" then some [] else (s.splitOn ",").mapM parseORat?
+
+def parseOPanel? (s : String) : Option (PanelOf (Option Rat)) :=
+  if s == "_" then some [] else (s.splitOn "|").mapM (fun i => (i.splitOn ";").mapM parseOCell?)
+
+def showOCell (c : List (Option Rat)) : String := if c.isEmpty then "e" else ",".intercalate (c.map showORat)
+def showOPanel (p : PanelOf (Option Rat)) : String :=
+  if p.isEmpty then "_" else "|".intercalate (p.map (fun i => ";".intercalate (i.map showOCell)))
+
 def parseOInt? (s : String) : Option (Option Int) :=
   if s == "none" then some none else (parseInt? s).map some
 
@@ -148,8 +159,8 @@ def handle (toks : List String) : String :=
     | some _, some len, some x => showE showPanel (interpolate len x)
     | _, _, _ => "bad-op"
   | ["pad", kind, padLen, fill, xfit, x] =>
-    match parseKind? kind, parseOInt? padLen, parseRat? fill, parsePanel? xfit, parsePanel? x with
-    | some _, some pl, some f, some xf, some x => showE showPanel (pad pl f xf x)
+    match parseKind? kind, parseOInt? padLen, parseORat? fill, parseOPanel? xfit, parseOPanel? x with
+    | some _, some pl, some f, some xf, some x => showE showOPanel (pad pl f xf x)
     | _, _, _, _, _ => "bad-op"
   | ["trunc", kind, lower, upper, xfit, x] =>
     match parseKind? kind, parseOInt? lower, parseOInt? upper, parsePanel? xfit, parsePanel? x with
